@@ -94,15 +94,50 @@ Section OPS.
     match xs with [] => None | x :: r => Some (fold_left (binop h m ch dflt) r x) end.
 End OPS.
 
-(* ---------------- executable cell operations (exact integers) *)
+(* ---------------- executable cell operations: exact integers extended with +-inf.
+   A cell Some z with z = +-INFZ stands for +-inf (the harness carries +-inf as +-10^9; finite operands and results
+   stay far below that).  Only the IEEE results that are determined without rounding are used:
+   inf + finite = inf, inf - inf = NaN, inf * 0 = NaN, inf / inf = NaN, finite / inf = 0, inf / finite<>0 = +-inf. *)
+Definition INFZ : Z := 1000000000.
+Inductive ext := Fin (z : Z) | PInf | NInf.
+Definition view (z : Z) : ext := if z =? INFZ then PInf else if z =? - INFZ then NInf else Fin z.
+Definition unview (e : ext) : Z := match e with Fin z => z | PInf => INFZ | NInf => - INFZ end.
+Definition eneg (e : ext) : ext := match e with Fin z => Fin (- z) | PInf => NInf | NInf => PInf end.
+Definition esign (pos : bool) : ext := if pos then PInf else NInf.
+Definition eadd (x y : ext) : option ext :=
+  match x, y with
+  | Fin a, Fin b => Some (Fin (a + b))
+  | PInf, NInf | NInf, PInf => None
+  | PInf, _ | _, PInf => Some PInf
+  | NInf, _ | _, NInf => Some NInf
+  end.
+Definition emul (x y : ext) : option ext :=
+  match x, y with
+  | Fin a, Fin b => Some (Fin (a * b))
+  | Fin a, PInf | PInf, Fin a => if a =? 0 then None else Some (esign (0 <? a))
+  | Fin a, NInf | NInf, Fin a => if a =? 0 then None else Some (esign (a <? 0))
+  | PInf, PInf | NInf, NInf => Some PInf
+  | PInf, NInf | NInf, PInf => Some NInf
+  end.
+(* _div_: a zero denominator is masked to NaN first *)
+Definition ediv (x y : ext) : option ext :=
+  match y with
+  | Fin b => if b =? 0 then None
+             else Some match x with Fin a => Fin (a / b) | PInf => esign (0 <? b) | NInf => esign (b <? 0) end
+  | _ => match x with Fin _ => Some (Fin 0) | _ => None end
+  end.
+Definition lifte (f : ext -> ext -> option ext) (x y : cell) : cell :=
+  match x, y with
+  | Some a, Some b => match f (view a) (view b) with Some e => Some (unview e) | None => None end
+  | _, _ => None
+  end.
+Definition addc := lifte eadd.
+Definition subc := lifte (fun x y => eadd x (eneg y)).
+Definition mulc := lifte emul.
+Definition divc := lifte ediv.
+(* comparisons and min / max need no special case: +-INFZ order correctly against every finite value *)
 Definition lift2 (f : Z -> Z -> Z) (x y : cell) : cell :=
   match x, y with Some a, Some b => Some (f a b) | _, _ => None end.
-Definition addc := lift2 Z.add.
-Definition subc := lift2 Z.sub.
-Definition mulc := lift2 Z.mul.
-(* _div_: a zero (or NaN) denominator gives NaN *)
-Definition divc (x y : cell) : cell :=
-  match x, y with Some a, Some b => if b =? 0 then None else Some (a / b) | _, _ => None end.
 (* numpy float power for integer exponents >= 0: nan**0 = 1 and 1**nan = 1 *)
 Definition powc (x y : cell) : cell :=
   match x, y with
